@@ -344,13 +344,549 @@ def corpus_files():
     return out
 
 
+# ------------------------------------------------------------------------------------------------
+# literal-focused generator: string / bytes / f-string literals whose VALUES contain every character class that the
+# printer (ast.rs fmt_string_literal, Display for AstLiteral::Bytes) escapes or that the lexer (lexer.rs string(),
+# bytes_string(), escape(), lex_fstring_content()) treats specially.  The generator starts from the intended VALUE,
+# spells it in several ways, and records the payloads the tree must hold (`expect`), so the check can tell
+# "the first parse built the wrong payload" from "print / re-parse changed the payload".
+
+LIT_CLASSES = [
+    ("lf", ["\n"]), ("cr", ["\r"]), ("tab", ["\t"]), ("nul", ["\0"]), ("backslash", ["\\"]), ("dquote", ['"']), ("squote", ["'"]),
+    ("c0", [chr(i) for i in range(1, 32) if i not in (9, 10, 13)]), ("del", ["\x7f"]),
+    ("lbrace", ["{"]), ("rbrace", ["}"]),
+    ("nel", ["\x85"]), ("c1", [chr(i) for i in range(0x80, 0xa0) if i != 0x85]),
+    ("latin1", ["\xe9", "\xa0", "\xad", "\xff"]),
+    ("bmp", ["\u0416", "\u65e5", "\ud7ff", "\ue000", "\ufeff", "\uffff", "\u200b", "\u202e", "\u0100"]),
+    ("astral", ["\U0001f600", "\U00010000", "\U0010ffff", "\U000e0001"]),
+    ("combining", ["\u0301", "\u200d", "\u20e3", "\ufe0f"]),
+    ("ls", ["\u2028"]), ("ps", ["\u2029"]),
+    ("crlf", ["\r\n"]), ("lfcr", ["\n\r"]), ("crcr", ["\r\r"]),
+    ("space", [" "]), ("text", ["ab", "two words", "Z"]),
+    ("digit", ["0", "7", "8", "00"]),                                     # right after \0 / octal / hex escapes
+    ("escape-letter", ["n", "r", "t", "x", "u", "U", "a", "x41", "N"]),  # right after a backslash VALUE
+    ("hash", ["#"]), ("percent", ["%s", "%"]), ("quotes3", ['"""', "'''", '""', "''"]), ("bang", ["!r", "!"]),
+]
+SHORT_ESC = {"\n": "\\n", "\r": "\\r", "\t": "\\t", "\\": "\\\\", "\a": "\\a", "\b": "\\b", "\f": "\\f", "\v": "\\v",
+             '"': '\\"', "'": "\\'"}
+STR_STYLES = ["short", "short", "hex", "oct", "uni", "mixed", "rawctl", "contin", "rawcr"]
+PY_STYLES = {"short", "hex", "oct", "uni", "mixed", "contin"}   # spelled the same way in Python: CPython cross-checks the intended value
+QUOTES = ['"', "'", '"""', "'''"]
+
+
+def cps(s):
+    return " ".join("U+%04X" % ord(c) for c in s) if isinstance(s, str) else s
+
+
+def _num_escape(c, oct_ok=False):
+    o = ord(c)
+    if oct_ok and o < 0o1000:
+        return "\\%03o" % o
+    return "\\x%02x" % o if o < 0x100 else ("\\u%04x" % o if o < 0x10000 else "\\U%08x" % o)
+
+
+def _plain_ok(v, i, q, allow_ctl):
+    """may v[i] stand for itself between the quotes q?"""
+    c = v[i]
+    if c in "\\\r\0":
+        return False
+    if c == "\n":
+        return len(q) == 3
+    if c == q[0]:
+        if len(q) == 1:
+            return False
+        return i != len(v) - 1 and v[i + 1] != c and (i == 0 or v[i - 1] != c)
+    if ord(c) < 32 or ord(c) == 127:
+        return allow_ctl or c == "\t"
+    return True
+
+
+def spell_str(rng, v, style, q, brace=False):
+    """Source text (without prefix) of a non-raw string literal with value v.  brace=True: f-string text
+    (`{`/`}` doubled)."""
+    out = []
+    for i, c in enumerate(v):
+        nxt = v[i + 1] if i + 1 < len(v) else ""
+        if brace and c in "{}" and not (style == "hex" and rng.random() < 0.3):
+            out.append(c + c)     # with style hex sometimes \x7b: the lexer decodes the escape into the text, the parser doubles it
+            continue
+        st = rng.choice(["short", "hex", "oct", "uni", "plain"]) if style == "mixed" else style
+        plain = _plain_ok(v, i, q, allow_ctl=(style in ("rawctl", "rawcr")))
+        if st == "hex":
+            s = c if (c.isascii() and c.isalnum()) else _num_escape(c)
+        elif st == "oct":
+            s = c if (c.isascii() and c.isalnum()) or (ord(c) >= 0o1000 and plain) else _num_escape(c, oct_ok=True)
+        elif st == "uni":
+            s = _num_escape(c) if ord(c) > 126 else None
+        else:
+            s = None
+        if s is None:
+            if st == "plain" and plain:
+                s = c
+            elif c == "\0":
+                s = "\\0" if (nxt == "" or nxt not in "01234567") and rng.random() < 0.7 else rng.choice(["\\000", "\\x00"])
+            elif c in SHORT_ESC and (c not in "\"'" or not plain or rng.random() < 0.3):
+                s = SHORT_ESC[c] if not (c in "\n\t" and plain and rng.random() < 0.5) else c
+            elif plain:
+                s = c
+            else:
+                s = _num_escape(c)
+        out.append(s)
+        if style == "contin" and rng.random() < 0.3:
+            out.append("\\\n")
+        if style == "rawcr" and rng.random() < 0.4:
+            out.append(rng.choice(["\r", "\r", "\\\r\n"]))   # a raw CR is dropped by the lexer; backslash CR LF is a continuation
+    if style == "rawcr" and len(q) == 3:
+        out = [("\r\n" if s == "\n" else s) for s in out]
+    return q + "".join(out) + q
+
+
+def spell_raw(v, q, fstring=False):
+    """Body of a raw literal r<q>...<q> with value v, or None when v has no raw spelling.  lexer.rs string(raw):
+    a backslash keeps itself and the next character, except that it is dropped before either quote character
+    (in an f-string, lex_fstring_content: only before the f-string's own quote character)."""
+    out = []
+    i = 0
+    while i < len(v):
+        c = v[i]
+        if c == "\\":
+            if i + 1 >= len(v):
+                return None
+            n = v[i + 1]
+            if n in "\"'\0" or (n == "\n" and len(q) == 1) or (fstring and (n in "{}\r" or not n.isascii())):
+                return None
+            out.append(c + n)
+            i += 2
+            continue
+        if c in "\r\0" or (c == "\n" and len(q) == 1) or (ord(c) < 32 and c not in "\t\n"):
+            return None
+        if c == q[0]:
+            if len(q) == 3:
+                return None
+            out.append("\\" + c)
+        elif fstring and c in "{}":
+            out.append(c + c)
+        else:
+            out.append(c)
+        i += 1
+    return q + "".join(out) + q
+
+
+def spell_bytes(rng, v, style, q):
+    """Source text (without prefix) of a non-raw bytes literal with value v (a bytes object); None if impossible."""
+    if style in ("utf8raw", "uesc"):
+        try:
+            t = v.decode("utf-8")
+        except UnicodeDecodeError:
+            return None
+        if t.isascii():
+            return None
+        out = []
+        for i, c in enumerate(t):
+            if not c.isascii():
+                out.append(c if style == "utf8raw" else ("\\u%04x" % ord(c) if ord(c) < 0x10000 else "\\U%08x" % ord(c)))
+            elif c.isalnum() or c == " ":
+                out.append(c)
+            else:
+                out.append("\\x%02x" % ord(c))
+        return q + "".join(out) + q
+    out = []
+    for i, b in enumerate(v):
+        c = chr(b)
+        nxt = chr(v[i + 1]) if i + 1 < len(v) else ""
+        st = rng.choice(["short", "hex", "oct"]) if style == "mixed" else style
+        if st == "hex":
+            s = "\\x%02x" % b
+        elif st == "oct":
+            s = "\\%03o" % b
+        elif b == 0:
+            s = "\\0" if (nxt == "" or nxt not in "01234567") else "\\000"
+        elif c in SHORT_ESC and (c not in "\"'" or c == q[0] or rng.random() < 0.3):
+            s = SHORT_ESC[c] if not (c in "\n\t" and len(q) == 3 and rng.random() < 0.5) else c
+        elif 0x20 <= b <= 0x7e:
+            s = c
+        else:
+            s = "\\x%02x" % b
+        out.append(s)
+    body = "".join(out)
+    if len(q) == 3 and (body.endswith(q[0]) or q in body):
+        return None
+    return q + body + q
+
+
+FSTRING_EXPRS = ["y", "y", "y!r", "y!s", "y.z", "y[0]", "y + 1", "g(y, 2)", "(y, z)", "[i for i in y]", "y if z else w", "-y"]
+
+
+class LitGen:
+    """(literal source, payloads the tree must hold, does CPython read it the same way)"""
+
+    def __init__(self, rng):
+        self.rng = rng
+
+    def values(self, nrand):
+        rng = self.rng
+        singles = [(name, m) for name, ms in LIT_CLASSES for m in ms]
+        pairs = [(n1 + "+" + n2, rng.choice(m1) + rng.choice(m2)) for n1, m1 in LIT_CLASSES for n2, m2 in LIT_CLASSES]
+        padded = []
+        for name, m in singles:
+            padded += [(name + "/mid", "a" + m + "b"), (name + "/end", "ab" + m), (name + "/start", m + "ab"), (name + "/twice", m + "-" + m)]
+        rnd = []
+        for _ in range(nrand):
+            parts = [rng.choice(rng.choice(LIT_CLASSES)[1]) for _ in range(rng.choice([2, 3, 3, 4, 5, 6, 8]))]
+            rnd.append(("random", "".join(parts)))
+        return singles, pairs, padded, rnd
+
+    def str_lit(self, v, style=None, q=None):
+        rng = self.rng
+        style = style or rng.choice(STR_STYLES + ["raw", "raw"])
+        q = q or rng.choice(QUOTES)
+        if style == "raw":
+            s = spell_raw(v, q)
+            if s is None:
+                return None
+            return "r" + s, [v], False, "raw" + q
+        src = spell_str(rng, v, style, q)
+        py = style in PY_STYLES
+        if py:
+            # generator self-check: the spelling means the intended value (CPython reads these escapes the same way)
+            import ast as _ast
+            try:
+                got = _ast.literal_eval(src)
+            except Exception:  # noqa: BLE001
+                got = None
+            if got != v:
+                raise AssertionError("literal generator: %r spelled %r is read by CPython as %r" % (v, src, got))
+        return src, [v], py, style + q
+
+    def bytes_lit(self, v, style=None, q=None):
+        rng = self.rng
+        style = style or rng.choice(["short", "hex", "oct", "mixed", "utf8raw", "uesc", "raw"])
+        q = q or rng.choice(QUOTES)
+        if style == "raw":
+            try:
+                t = v.decode("ascii")
+            except UnicodeDecodeError:
+                return None
+            s = spell_raw(t, q)
+            if s is None:
+                return None
+            return rng.choice(["rb", "br"]) + s, ["bytes:" + v.hex()], False, "rawbytes" + q
+        s = spell_bytes(rng, v, style, q)
+        if s is None:
+            return None
+        src = "b" + s
+        if style in ("short", "hex", "oct", "mixed"):
+            import ast as _ast
+            try:
+                got = _ast.literal_eval(src)
+            except Exception:  # noqa: BLE001
+                got = None
+            if got != v:
+                raise AssertionError("literal generator: %r spelled %r is read by CPython as %r" % (v, src, got))
+        return src, ["bytes:" + v.hex()], False, "bytes-" + style + q
+
+    def fstring_lit(self, texts, style=None, q=None):
+        """texts: k+1 text values around k replacement fields"""
+        rng = self.rng
+        q = q or rng.choice(QUOTES)
+        raw = style == "raw"
+        style = style or rng.choice(["short", "short", "hex", "uni", "rawctl", "rawcr"])
+        src, fmt, inner = "", "", []
+        for i, t in enumerate(texts):
+            if raw:
+                s = spell_raw(t, q, fstring=True)
+            else:
+                s = spell_str(rng, t, style, q, brace=True)
+            if s is None:
+                return None
+            body = s[len(q):len(s) - len(q)]
+            if len(q) == 3 and not raw and body.endswith(q[0]):
+                return None
+            src += body
+            fmt += t.replace("{", "{{").replace("}", "}}")
+            if i + 1 < len(texts):
+                e = rng.choice(FSTRING_EXPRS)
+                if rng.random() < 0.15:
+                    oq = "'" if q[0] == '"' else '"'
+                    e = "d[%sk%s]" % (oq, oq)
+                    inner.append("k")
+                src += "{" + e + "}"
+                fmt += "{!r}" if e.endswith("!r") else "{}"
+        return ("fr" if raw else "f") + q + src + q, [fmt] + inner, False, "fstring-" + (style or "") + q
+
+
+LIT_CONTEXTS = [  # (name, template, strings only)
+    ("assign", "x = {0}\n", False), ("call", "f({0})\n", False), ("kwarg", "f(k = {0})\n", False),
+    ("dictkey", "d = {{{0}: 1}}\n", False), ("dictkv", "d = {{{0}: {0}, 2: {0}}}\n", False), ("index", "v = d[{0}]\n", False),
+    ("default", "def g(a = {0}, b = {0}, *c, **k):\n    pass\n", False), ("lambda-default", "h = lambda a = {0}: a\n", False),
+    ("docstring", "def g():\n    {0}\n    return 1\n", False), ("module-docstring", "{0}\nx = 1\n", False),
+    ("list", "v = [{0}, {0}]\n", False), ("concat", "v = {0} + {0} * 2\n", False), ("method", "v = {0}.join(y)\n", False),
+    ("cond", "v = {0} if {0} else {0}\n", False), ("compr", "v = [c for c in {0} if c != {0}]\n", False),
+    ("return", "def g():\n    return {0}\n", False), ("nested-suite", "def g():\n    if x:\n        for i in y:\n            z = {0}\n    return 0\n", False),
+    ("format-arg", 'v = "{{}}|{{!r}}".format({0}, {0})\n', False), ("percent", "v = {0} % (1, {0})\n", False),
+    ("augassign", "x += {0}\n", False), ("tuple", "v = ({0},)\n", False), ("compare", "v = {0} in {0}\n", False),
+    ("load-module", 'load({0}, "a")\n', True), ("load-their", 'load("m", b = {0})\n', True),
+    ("load-all", 'load({0}, "a", b = {0}, c = {0})\n', True),
+]
+
+
+def lit_place(template, src, payload):
+    """(module text, expected payloads in tree order) for a literal placed in every {0} of the template"""
+    pieces = template.split("{0}")
+    text, exp = "", []
+    for i, p in enumerate(pieces):
+        p = p.replace("{{", "{").replace("}}", "}")
+        text += p
+        exp += re.findall(r'"([^"\\]*)"', p)
+        if i + 1 < len(pieces):
+            text += src
+            exp += payload
+    return text, exp
+
+
+BYTE_CLASSES = [[0], [9], [10], [13], [34], [39], [92], [0x20, 0x41, 0x7e, 0x30, 0x37, 0x6e, 0x78], [1, 7, 8, 11, 12, 27, 31], [0x7f],
+                [0x80, 0x85, 0x9f], [0xa0, 0xc3, 0xe9, 0xff], [0x7b, 0x7d]]
+
+
+def gen_literal_cases(ctx, add, deep=False):
+    rng = ctx.rng
+    lg = LitGen(rng)
+    mult = 3 if deep else 1
+    singles, pairs, padded, rnd = lg.values(ctx.n(1500, 40000) * mult)
+    str_ctx = LIT_CONTEXTS
+    any_ctx = [c for c in LIT_CONTEXTS if not c[2]]
+
+    def put(lit, ctxs, tag, dialects=("A",)):
+        if lit is None:
+            return 0
+        src, payload, py, how = lit
+        for name, tpl, _ in ctxs:
+            text, exp = lit_place(tpl, src, payload)
+            add(text, "literals", shared=False, model=False, d=rng.choice(dialects), tokens=False, expect=exp,
+                lit={"class": tag, "spelling": how, "context": name})
+        return len(ctxs)
+
+    def some_ctx(pool, k):
+        return [pool[0]] + rng.sample(pool[1:], k)
+
+    # (a) every member of every class alone: every spelling x quote (exhaustive), in `x = L` and two other places
+    for tag, v in singles:
+        for style in ["short", "hex", "oct", "uni", "mixed", "rawctl", "contin", "rawcr", "raw"]:
+            for q in QUOTES:
+                put(lg.str_lit(v, style, q), some_ctx(str_ctx, 2), tag, ("A", "A", "E", "S"))
+    # (b) around ordinary text, (c) every ordered pair of classes, (d) random combinations
+    for tag, v in padded:
+        for style in ["short", "hex", "mixed", "rawcr", "raw"]:
+            put(lg.str_lit(v, style), some_ctx(str_ctx, 1), tag, ("A", "A", "E", "S"))
+    for tag, v in pairs:
+        for _ in range(3):
+            put(lg.str_lit(v), some_ctx(str_ctx, 1), tag, ("A", "A", "E", "S"))
+    for tag, v in rnd:
+        put(lg.str_lit(v), [rng.choice(str_ctx)], tag, ("A", "A", "E", "S"))
+        if rng.random() < 0.5:
+            put(lg.str_lit(v), [rng.choice(str_ctx)], tag)
+    # (e) bytes literals: every byte value alone (exhaustive), every ordered pair of byte classes, random
+    for b in range(256):
+        for style in ["short", "hex", "oct", "raw"]:
+            put(lg.bytes_lit(bytes([b]), style), some_ctx(any_ctx, 1), "byte")
+        put(lg.bytes_lit(bytes([0x61, b, 0x62]), "short"), [any_ctx[0]], "byte/mid")
+        put(lg.bytes_lit(bytes([b, 0x30]), "mixed"), [any_ctx[0]], "byte/before-digit")
+    for c1 in BYTE_CLASSES:
+        for c2 in BYTE_CLASSES:
+            for _ in range(2):
+                put(lg.bytes_lit(bytes([rng.choice(c1), rng.choice(c2)])), [rng.choice(any_ctx)], "byte-pair")
+    for tag, v in singles + rng.sample(pairs, min(len(pairs), 300 * mult)):
+        for style in ["utf8raw", "uesc", "short"]:
+            put(lg.bytes_lit(v.encode("utf-8"), style), [rng.choice(any_ctx)], "bytes-utf8:" + tag)
+    for _ in range(ctx.n(600, 15000) * mult):
+        v = bytes(rng.choice(rng.choice(BYTE_CLASSES)) for _ in range(rng.randint(1, 8)))
+        put(lg.bytes_lit(v), [rng.choice(any_ctx)], "bytes-random")
+    # (f) f-strings: the classes in the text parts, between / around replacement fields
+    for tag, v in singles:
+        for style in ["short", "hex", "uni", "rawctl", "rawcr", "raw"]:
+            for q in QUOTES:
+                texts = rng.choice([[v], [v, ""], ["", v], [v, v], ["a", v, "b"]])
+                put(lg.fstring_lit(texts, style, q), some_ctx(any_ctx, 1), "fstring:" + tag)
+    for tag, v in padded + pairs:
+        texts = rng.choice([[v], [v, ""], ["", v], [v, v], ["a", v, "b"]])
+        put(lg.fstring_lit(texts), [rng.choice(any_ctx)], "fstring:" + tag)
+    for tag, v in rnd[: len(rnd) // 2]:
+        k = rng.randint(0, 3)
+        cut = sorted(rng.randint(0, len(v)) for _ in range(k))
+        texts = [v[a:b] for a, b in zip([0] + cut, cut + [len(v)])]
+        put(lg.fstring_lit(texts), [rng.choice(any_ctx)], "fstring:random")
+    # (g) modules holding several different literals
+    pool = singles + padded + pairs
+    for _ in range(ctx.n(800, 20000) * mult):
+        text, exp, loads = "", [], True
+        for _ in range(rng.randint(2, 5)):
+            v = rng.choice(pool)[1]
+            kind = rng.choice(["str", "str", "bytes", "fstring"])
+            lit = lg.str_lit(v) if kind == "str" else (lg.bytes_lit(v.encode("utf-8")) if kind == "bytes" else lg.fstring_lit([v, rng.choice(pool)[1]]))
+            if lit is None:
+                continue
+            name, tpl, _ = rng.choice(str_ctx if kind == "str" else any_ctx)
+            t, e = lit_place(tpl, lit[0], lit[1])
+            text += t
+            exp += e
+        if text:
+            add(text, "literals", shared=False, model=False, d="A", tokens=False, expect=exp,
+                lit={"class": "module", "spelling": "several", "context": "several"})
+
+
+def sx_payloads(sx):
+    """the literal payloads of an S-expression of the harness, in tree order: str / f-string format / load names as
+    Python strings, bytes as 'bytes:<hex>'"""
+    out = []
+    for m in re.finditer(r'"(?:[^"\\]|\\.)*"|\(bytes ([0-9a-f]*)\)', sx):
+        out.append("bytes:" + m.group(1) if m.group(1) is not None else json.loads(m.group(0)))
+    return out
+
+
+def sx_shape(sx):
+    return re.sub(r'"(?:[^"\\]|\\.)*"|\(bytes [0-9a-f]*\)', "@", sx)
+
+
+def show_payload(p):
+    return "%r (%s)" % (p, cps(p)) if not p.startswith("bytes:") else p
+
+
+def payload_diff_class(p1, p2):
+    """narrow classification of the first differing payload pair: kind + the first character / byte of the original
+    value that did not survive"""
+    for a, b in zip(p1, p2):
+        if a != b:
+            if a.startswith("bytes:") and b.startswith("bytes:"):
+                x, y = bytes.fromhex(a[6:]), bytes.fromhex(b[6:])
+                i = next((i for i in range(min(len(x), len(y))) if x[i] != y[i]), min(len(x), len(y)))
+                return "bytes/" + ("0x%02x" % x[i] if i < len(x) else "end")
+            if a.startswith("bytes:") != b.startswith("bytes:"):
+                return "kind"
+            i = next((i for i in range(min(len(a), len(b))) if a[i] != b[i]), min(len(a), len(b)))
+            return "str/" + ("U+%04X" % ord(a[i]) if i < len(a) else "end")
+    return "count"
+
+
+LEX_EDGE_TEXTS = [  # double-quoted texts around the edges of escape decoding (several are rejected): lexer model vs lexer
+    '"\\x4"', '"\\xg0"', '"\\x4g"', '"\\x41g"', '"\\xAB"', '"\\xab"', '"\\u12"', '"\\u00E9"', '"\\ud7ff"', '"\\ud800"', '"\\udfff"',
+    '"\\ue000"', '"\\U0010ffff"', '"\\U00110000"', '"\\Ufffffff0"', '"\\U0001F600"', '"\\U0001f60"', '"\\8"', '"\\9a"', '"\\400"',
+    '"\\777"', '"\\1234"', '"\\18"', '"\\0"', '"\\08"', '"\\q"', '"\\N{DASH}"', '"a\\\rb"', '"a\\\r\nb"', '"a\\\nb"', '"a\rb"',
+    '"a\r\nb"', '"\\\'"', '"\\""', '"\\\\"', '"\\"', '"\\a\\b\\f\\v\\n\\r\\t"', '"\\z\u00e9"', '"\\\u00e9"', '"\\x"', '"\\u"', '"\\U"',
+    '""', '"\\x00\\x7f\\x80\\xff"', '"\\000\\177\\200\\377"', '"\\G"', '"\\xfg"', '"\\u{41}"',
+]
+LEX_EDGE_BYTES = [
+    'b"\\400"', 'b"\\377"', 'b"\\378"', 'b"\\u00e9"', 'b"\\U0001f600"', 'b"\u00e9"', 'b"\U0001f600"', 'b"\\xff"', 'b"\\xFF"', 'b"\\x4"',
+    'b"\\q"', 'b"\\\u00e9"', 'b"\\ud800"', 'b"\\0"', 'b"\\08"', 'b"\\8"', 'b"a\rb"', 'b"a\\\r\nb"', 'b"a\\\nb"', 'b"\\\'\\""', 'b""',
+    'b"\\a\\b\\f\\v\\n\\r\\t\\\\"', 'b"\u2028\x85\x7f"', 'b"\\x"', 'b"\\U00110000"', 'b"\\777"',
+]
+
+
+def hexrow(xs):
+    return "".join("%x " % x for x in xs)
+
+
+def literal_model_tie(ctx, deep=False):
+    """The Coq model of the printer's escaping and of the lexer's decoding (coq/Parse/Escape.v, the subject of
+    C06_string_literal_roundtrip / C06_bytes_literal_roundtrip) against the implementation: for `x = <literal>` the model's
+    lexer must read the literal text as the payload the real parser holds (or reject it when the real parser does), the
+    model's printer must write the text Display writes, and the model must read that text back."""
+    rng = ctx.rng
+    lg = LitGen(rng)
+    singles, pairs, padded, rnd = lg.values(ctx.n(150, 3000) * (3 if deep else 1))
+    lits = []   # (kind, literal source text)
+    for tag, v in singles:
+        for style in ["short", "hex", "oct", "mixed", "rawcr", "rawctl", "contin"]:
+            lits.append(("str", lg.str_lit(v, style, '"')[0]))
+    for tag, v in rng.sample(padded, min(len(padded), ctx.n(100, 2000))) + rng.sample(pairs, min(len(pairs), ctx.n(150, 3000))) + rnd:
+        lits.append(("str", lg.str_lit(v, rng.choice(["short", "hex", "oct", "uni", "mixed", "rawcr", "rawctl", "contin"]), '"')[0]))
+    lits += [("str", t) for t in LEX_EDGE_TEXTS]
+    for b in range(256):
+        for style in ["short", "hex", "oct"]:
+            lits.append(("bytes", lg.bytes_lit(bytes([b]), style, '"')[0]))
+        lits.append(("bytes", lg.bytes_lit(bytes([b, 0x30 + b % 10, b]), "mixed", '"')[0]))
+    for tag, v in singles:
+        for style in ["utf8raw", "uesc"]:
+            lit = lg.bytes_lit(v.encode("utf-8"), style, '"')
+            if lit:
+                lits.append(("bytes", lit[0]))
+    for _ in range(ctx.n(150, 3000)):
+        v = bytes(rng.choice(rng.choice(BYTE_CLASSES)) for _ in range(rng.randint(1, 8)))
+        lits.append(("bytes", lg.bytes_lit(v, rng.choice(["short", "hex", "oct", "mixed"]), '"')[0]))
+    lits += [("bytes", t) for t in LEX_EDGE_BYTES]
+    cases = [{"src": "x = %s\n" % t, "d": "A", "tokens": False, "rt": False, "kind": "literal-model"} for _, t in lits]
+    rc, log, res = sv.run_harness_sharded(ctx, "parse", cases, timeout=600)
+    failures, broken, rows, rowmeta = [], [], [], []
+    if rc != 0:
+        failures.append({"key": "harness-crash", "what": "parse harness exited with %s: %s" % (rc, log[-300:]), "replay": {"rc": rc}})
+    n_print = n_lex = n_rej = 0
+    for (kind, text), c, r in zip(lits, cases, res):
+        if r is None or "panic" in (r or {}):
+            failures.append({"key": "panic", "what": "no result / panic for %r: %s" % (c["src"], r), "replay": {"case": c, "impl": r}})
+            continue
+        tcp = [ord(ch) for ch in text]
+        if not r["ok"]:
+            n_rej += 1
+            rows.append("%s %s;" % ("r" if kind == "str" else "s", hexrow(tcp)))
+            rowmeta.append((c, r, "lexer model accepts a literal the implementation rejects"))
+            continue
+        pl = sx_payloads(r["sx"])
+        if len(pl) != 1 or pl[0].startswith("bytes:") != (kind == "bytes"):
+            failures.append({"key": "literal:parsed-value-differs/kind", "what": "%r: payloads %s" % (c["src"], pl), "replay": {"case": c, "impl": r}})
+            continue
+        val = list(bytes.fromhex(pl[0][6:])) if kind == "bytes" else [ord(ch) for ch in pl[0]]
+        n_lex += 1
+        rows.append("%s %s, %s;" % ("l" if kind == "str" else "m", hexrow(tcp), hexrow(val)))
+        rowmeta.append((c, r, "lexer model reads the literal differently from the implementation (payload %s)" % show_payload(pl[0])))
+        disp = r["display"]
+        if not (disp.startswith("x = ") and disp.endswith("\n")):
+            failures.append({"key": "print:literal-statement-shape", "what": "%r printed as %r" % (c["src"], disp), "replay": {"case": c, "impl": r}})
+            continue
+        n_print += 1
+        rows.append("%s %s, %s;" % ("p" if kind == "str" else "q", hexrow(val), hexrow([ord(ch) for ch in disp[4:-1]])))
+        rowmeta.append((c, r, "printer model writes a different text than Display %r for payload %s, or the lexer model does not read it back"
+                        % (disp, show_payload(pl[0]))))
+    files = []
+    nshard = min(8, max(1, len(rows) // 300))
+    for sh in range(nshard):
+        part = rows[sh::nshard]
+        text = ("From Coq Require Import NArith List String.\nFrom SV Require Import Parse.Escape Parse.EscapeCases.\n"
+                "Import ListNotations.\nOpen Scope N_scope.\n")
+        chunk, base, size = [], 0, 0     # a string literal of more than a few thousand characters overflows coqc's stack
+        for j, row in enumerate(part + [None]):
+            if row is None or size + len(row) > 4000:
+                if chunk:
+                    text += 'Eval vm_compute in (map (N.add %d) (bad_rows "%s"%%string)).\n' % (base, "\n".join(chunk))
+                chunk, base, size = [], j, 0
+            if row is not None:
+                chunk.append(row)
+                size += len(row) + 1
+        files.append(("lit_%d" % sh, text))
+    mism = 0
+    for (rc2, out), sh in zip(sv.coq_eval_files(ctx, files, timeout=600), range(nshard)):
+        vals = sv.coq_values(out) if rc2 == 0 else None
+        if vals is None:
+            broken.append(("literal-model-tie", "coqc failed on the literal rows: " + out[-300:]))
+            continue
+        for idx in [x for v in vals for x in v]:
+            mism += 1
+            c, r, why = rowmeta[sh + int(idx) * nshard]
+            failures.append({"key": "literal:model-differs", "what": "%r: %s; Coq row: %s" % (c["src"], why, rows[sh + int(idx) * nshard][:300]),
+                             "replay": {"case": c, "impl": r, "row": rows[sh + int(idx) * nshard]}})
+    ctx.log("literal model tie: %d rows (%d lexer rows, %d rejected by both sides expected, %d printer rows), %d mismatches"
+            % (len(rows), n_lex, n_rej, n_print, mism))
+    return failures, broken, {"literal_model_rows": len(rows), "literal_model_lexer_rows": n_lex + n_rej, "literal_model_rejections": n_rej,
+                              "literal_model_printer_rows": n_print, "literal_model_mismatches": mism}
+
+
 def gen_cases(ctx, deep=False):
     rng = ctx.rng
     cases = []
 
-    def add(src, kind, shared=True, model=True, d="A"):
-        cases.append({"src": src if src.endswith("\n") else src + "\n", "kind": kind, "shared": shared, "model": model, "d": d,
-                      "tokens": True, "rt": True})
+    def add(src, kind, shared=True, model=True, d="A", tokens=True, **extra):
+        c = {"src": src if src.endswith("\n") else src + "\n", "kind": kind, "shared": shared, "model": model, "d": d,
+             "tokens": tokens, "rt": True}
+        c.update(extra)
+        cases.append(c)
 
     # hand-written boundary cases / minimised past failures first
     for p in sorted(glob.glob(os.path.join(sv.ROOT, "corpus", "C06", "*.txt"))):
@@ -358,6 +894,7 @@ def gen_cases(ctx, deep=False):
             line = line.rstrip("\n")
             if line and not line.startswith("#"):
                 add(line.replace("\\n", "\n"), "corpus")
+    gen_literal_cases(ctx, add, deep)
     forms = pair_forms()
     for f in forms:
         for c in CONTEXTS:
@@ -442,7 +979,8 @@ def evaluate(ctx, cases):
     if rc != 0:
         failures.append({"key": "harness-crash", "what": "parse harness exited with %s: %s" % (rc, log[-300:]), "replay": {"rc": rc}})
     st = {"evaluations": 0, "accepted": 0, "rejected": 0, "model_cases": 0, "py_cases": 0, "py_both_ok": 0, "roundtrips": 0,
-          "nontrivial": set(), "py_informational": {}, "kinds": {}}
+          "nontrivial": set(), "py_informational": {}, "kinds": {}, "literal_cases": 0, "literal_payloads": 0, "literal_classes": set(),
+          "literal_spellings": {}, "literal_contexts": {}}
     lines, meta = [], {}
     for i, (c, r) in enumerate(zip(cases, res)):
         st["kinds"][c["kind"]] = st["kinds"].get(c["kind"], 0) + 1
@@ -454,6 +992,27 @@ def evaluate(ctx, cases):
         toks = r.get("tokens")
         if isinstance(toks, list) and is_nontrivial(toks):
             st["nontrivial"].add(c["src"])
+        # (0) literal cases: the first parse must hold the payloads the generator intended (the specification's value of
+        #     each literal; CPython read the same spelling the same way where the spelling is shared)
+        if c.get("expect") is not None:
+            st["literal_cases"] += 1
+            lit = c.get("lit", {})
+            st["literal_classes"].update(lit.get("class", "").split(":")[-1].split("/")[0].split("+"))
+            st["literal_spellings"][lit.get("spelling")] = st["literal_spellings"].get(lit.get("spelling"), 0) + 1
+            st["literal_contexts"][lit.get("context")] = st["literal_contexts"].get(lit.get("context"), 0) + 1
+            if not r["ok"]:
+                failures.append({"key": "literal:valid-literal-rejected", "what": "%r (%s) is rejected: %s; intended payloads %s"
+                                 % (c["src"], lit, (r.get("err") or {}).get("msg"), [show_payload(p) for p in c["expect"]][:6]),
+                                 "replay": {"case": c, "impl": r, "spec_payloads": c["expect"]}})
+            else:
+                got = sx_payloads(r["sx"])
+                st["literal_payloads"] += len(got)
+                if got != c["expect"]:
+                    bad = [(show_payload(a), show_payload(b)) for a, b in zip(c["expect"], got) if a != b][:3]
+                    failures.append({"key": "literal:parsed-value-differs/" + payload_diff_class(c["expect"], got), "what": "%r (%s): the tree holds a different literal value than the source "
+                                     "spells (intended, parsed): %s%s" % (c["src"], lit, bad, "" if len(got) == len(c["expect"]) else
+                                                                         " [%d payloads, %d intended]" % (len(got), len(c["expect"]))),
+                                     "replay": {"case": c, "impl": r, "spec_payloads": c["expect"], "impl_payloads": got}})
         # (1) printing round trip on the implementation
         if r["ok"] and "re" in r:
             st["roundtrips"] += 1
@@ -462,6 +1021,14 @@ def evaluate(ctx, cases):
             if not re_["ok"]:
                 failures.append({"key": "roundtrip:printed-text-rejected", "what": "Display of %r = %r does not parse: %s" % (tag, r["display"][:300], re_.get("err")),
                                  "replay": {"case": c, "impl": r}})
+            elif not re_["same"] and sx_shape(r.get("sxd", r["sx"])) == sx_shape(re_.get("sx", "")):
+                # same tree shape, a literal payload changed: the printer's escaping and the lexer's decoding disagree
+                p1, p2 = sx_payloads(r.get("sxd", r["sx"])), sx_payloads(re_.get("sx", ""))
+                bad = [(show_payload(a), show_payload(b)) for a, b in zip(p1, p2) if a != b][:3]
+                failures.append({"key": "roundtrip:literal-value-differs/" + payload_diff_class(p1, p2), "what": "parse(Display(t)) holds a different literal value than t for %r: "
+                                 "printed as %r; (value in t, value after print + re-parse): %s" % (tag, r["display"][:300], bad),
+                                 "replay": {"case": c, "impl": r, "payloads_first_parse": p1, "payloads_after_roundtrip": p2,
+                                            "spec_payloads": c.get("expect")}})
             elif not re_["same"]:
                 failures.append({"key": "roundtrip:tree-differs", "what": "parse(Display(t)) != t for %r: display %r, first tree %s, second %s"
                                  % (tag, r["display"][:300], r.get("sxd", r["sx"])[:400], re_.get("sx", "")[:400]), "replay": {"case": c, "impl": r}})
